@@ -5,7 +5,7 @@
    token conversion and one of these loops; that composition, and the table [ps] the loops are run on, are what
    the recorded-ps correspondence ties to the code on every run. *)
 From Coq Require Import List Arith Bool.
-From GV Require Import Model.Loops Proofs.LoopsP.
+From GV Require Import Model.Loops Proofs.LoopsP Model.Wrappers Proofs.WrappersP.
 Import ListNotations.
 
 (* Parser.ParseContext with a context that never fires is Parser.Parse, in default and in strict mode: same trees,
@@ -65,6 +65,19 @@ Theorem C07_batch_all_ok :
     Forall2 (fun q ts => one q = POk ts) qs rs' -> multi Q T one i qs acc = MOk (acc ++ rs').
 Proof. exact multi_all_ok. Qed.
 
+(* THE PROPERTY: for every input whose front end (tokenize + convert) result has a token other than semicolons, any two
+   entry points — Parse / ParseWithPositions / ParseContext (context never fires) / Validate / recovery, i.e. every
+   entry point of the property by the loop copy it runs (Model/Wrappers.v) — both accept or both reject; those that
+   return trees return equal trees; those that fail report the same error code (for recovery: its first error).
+   A front-end failure is the same failure for all of them.  Holds for every statement parser that consumes on
+   success and never moves the cursor backwards. *)
+Theorem C07_entry_points_agree :
+  forall tree (f : fres tree) (e1 e2 : entry),
+    match f with FErr _ => True | FOk t => has_statement_token tree t /\ ps_ok tree t end ->
+    agree tree (run_entry tree e1 f) (run_entry tree e2 f).
+Proof. exact entry_points_agree. Qed.
+
+Print Assumptions C07_entry_points_agree.
 Print Assumptions C07_parse_context_agrees.
 Print Assumptions C07_recovery_accepts_iff.
 Print Assumptions C07_recovery_same_code.
